@@ -83,8 +83,9 @@ func (ex *Exec) resetPath(item WorkItem) {
 	ex.tags = nil
 	ex.trace = nil
 	ex.locks = map[Ptr]*LockState{}
+	ex.siteCount = map[string]int{}
 	ex.wgs = map[Ptr]*Term{}
-	ex.onces = map[Ptr]bool{}
+	ex.onces = map[Ptr]int{}
 	ex.ghost = map[string]Value{}
 	ex.switches = 0
 	ex.allocCap = 0
